@@ -198,7 +198,7 @@ let process_trace (id : string) (backend : string) (lines : (char * string) list
   let nl = ref 0 in
   (* fine-grained traces: [marker] = the segment being read ends with that agent parked in the middle of a
      critical section; [mid] = the agent that is there now, with the observation the model produced when
-     the whole critical section was applied at its first half (the linearisation point, DESIGN section 4.6) *)
+     the whole critical section was applied at its first half (the linearisation point, DESIGN section 4.7) *)
   let marker = ref None in
   let marker_site = ref 0 in
   let mid = ref None in
